@@ -17,6 +17,7 @@ MISTAKES = (
     "assign_captured", "unsupported_syntax", "unsolved_typevar", "bad_annotation",
     "return_type", "dead_code_type_error", "comptime_raises", "comptime_expr_raises",
     "entry_has_args", "non_monomorphic_entry", "struct_field_unknown", "overload_no_match",
+    "nested_undefined_names", "nested_maybe_undefined_captures", "nested_branch_type_captures",
 )
 
 
@@ -261,10 +262,13 @@ class Body:
             kind = 2   # 0 plain, 1 capturing, 2 recursive, 3 recursive capturing
         p = self.fresh("p")
         ints = self.vars_of(env, "int")
-        cap = ch.pick(ints, "cap") if ints and kind in (1, 3) and self.g.allow_capture else None
+        caps: list[str] = []
+        if ints and kind in (1, 3) and self.g.allow_capture:
+            caps = ch.shuffle(ints, "caps")[: ch.rng_int(1, 3, "n_caps")]
+        cap = caps[0] if caps else None
         body_env = {p: "int"}
-        if cap:
-            body_env[cap] = "int"
+        for c in caps:
+            body_env[c] = "int"
         sub = Body(self.g, FnSig(name, [(p, "int")], "int"), self.callees, min(self.budget, 4),
                    1)
         sub.counter = self.counter + 100
@@ -273,8 +277,8 @@ class Body:
         if kind >= 2:
             ret = f"{name}({p} - 1) + {ret}" if ch.draw(2, "rec_form") else \
                 f"({ret} if {p} < 1 else {name}({p} - 1))"
-        if cap:
-            ret = f"({ret} + {cap})"
+        for c in caps:
+            ret = f"({ret} + {c})"
         out = [f"def {name}({p}: int) -> int:"] + ind(lines + [f"return {ret}"])
         self.nested.append(FnSig(name, [(p, "int")], "int"))
         v = self.fresh()
@@ -348,6 +352,24 @@ def plant(b: Body, lines: list[str], env: dict, m: dict) -> list[str]:
         m["ret"] = "(1, 2, 3, 4)"
     elif kind == "dead_code_type_error":
         ins = [["if False:"] + [f"    {b.fresh('u')} = 1 + (1, 2)" for _ in range(k)]]
+    elif kind == "nested_undefined_names":
+        nf = b.fresh("nf")
+        ins = [[f"def {nf}(p: int) -> int:",
+                "    return p + " + " + ".join(f"nundef_{j}" for j in range(k + 1)),
+                f"{b.fresh('u')} = {nf}(1)"]]
+    elif kind == "nested_maybe_undefined_captures":
+        names = [b.fresh("nm") for _ in range(k + 1)]
+        nf = b.fresh("nf")
+        ins = [[f"if {b.expr(env, 'bool')}:"] + [f"    {n} = {j}" for j, n in enumerate(names)]
+               + [f"def {nf}(p: int) -> int:", "    return p + " + " + ".join(names),
+                  f"{b.fresh('u')} = {nf}(1)"]]
+    elif kind == "nested_branch_type_captures":
+        names = [b.fresh("nb") for _ in range(k + 1)]
+        nf = b.fresh("nf")
+        ins = [[f"if {b.expr(env, 'bool')}:"] + [f"    {n} = {j}" for j, n in enumerate(names)]
+               + ["else:"] + [f"    {n} = {('True', '1.5', '(1, 2)')[j % 3]}" for j, n in enumerate(names)]
+               + [f"def {nf}(p: int) -> int:", f"    {b.fresh('t')} = ({', '.join(names)})", "    return p",
+                  f"{b.fresh('u')} = {nf}(1)"]]
     elif kind == "struct_field_unknown":
         if b.g.structs:
             s = b.g.structs[0]
